@@ -99,9 +99,10 @@ def norm(node, limit=160):
 
 
 class Program(object):
-    def __init__(self, root='/repo', overlay=None):
+    def __init__(self, root='/repo', overlay=None, normalise=True):
         self.root = root
         self.overlay = overlay or {}
+        self.renamed_locals = {}   # qname -> {current name: reference name}
         self.modules = {}    # name -> ast.Module
         self.paths = {}      # name -> relative path
         self.sources = {}    # name -> source text
@@ -115,6 +116,8 @@ class Program(object):
         self._const_cache = {}
         self._load()
         self._index()
+        if normalise and os.environ.get('MSTATIC_NO_LOCALNAMES') != '1':
+            self._normalise_locals()
 
     # ---- loading -------------------------------------------------------
     def _load(self):
@@ -152,6 +155,21 @@ class Program(object):
                 self.modules[name] = ast.parse(src, rel)
                 self.paths[name] = rel
                 self.sources[name] = src
+
+    def _normalise_locals(self):
+        """Bring renamed locals back to their reference spelling (see
+        mstatic/localnames.py): rules are written over the local names of
+        the reference tree, a consistent renaming is not a change."""
+        from mstatic import localnames
+        table = localnames.load_table()
+        if not table:
+            return
+        for q, f in self.funcs.items():
+            if f.parent is not None:
+                continue
+            ren = localnames.normalise(q, f.node, table)
+            if ren:
+                self.renamed_locals[q] = ren
 
     def digest(self):
         h = hashlib.sha256()
